@@ -338,8 +338,9 @@ func (qrf *QUICRandomFrames) buildInternal(cryptoData []byte, baseOffset uint64)
 	frameList = append(frameList, QUICFrameCrypto{Offset: int(offsetCryptoData), Length: 0}) // 0 means the remaining
 
 	// dry-run to determine the total length of all frames so far
-	// Use baseOffset=0 for the dry-run since we only care about byte count, not wire offsets.
-	dryrunPayload, err := frameList.build(cryptoData, 0)
+	// Use the real baseOffset: the varint encoding of a CRYPTO frame's offset grows with the offset,
+	// so the byte count depends on it.
+	dryrunPayload, err := frameList.build(cryptoData, baseOffset)
 	if err != nil {
 		return nil, err
 	}
